@@ -42,8 +42,12 @@ PROPS = {
         "assumptions": ["memoisation (the AND cache) and hash-consing are not part of this model; they are the subject of C14"],
     },
     "C03": {
-        "lean_targets": ["Pep508.Theorems.C03"],
+        "lean_targets": ["Pep508.Theorems.C03", "Pep508.Theorems.C03b", "Pep508.Theorems.NonVacuityA"],
         "theorems": [
+            "Pep508.C03.canonical_relative", "Pep508.C03.equal_iff_same_function_val", "Pep508.C03.is_true_iff_val", "Pep508.C03.is_false_iff_val",
+            "Pep508.C03.val_not_dense_unbounded", "Pep508.C03.lt_zero_constantly_false", "Pep508.C03.str_gap_constantly_false",
+            "Pep508.C03.failure_shapes_not_separated", "Pep508.C03.relative_generalises_dense", "Pep508.C03.bounds_and", "Pep508.C03.bounds_or", "Pep508.C03.bounds_not",
+            "Pep508.C03.expression_bounds_normalized", "Pep508.C03.sep_of_norm",
             "Pep508.canonical", "Pep508.C03.equal_iff_same_function", "Pep508.C03.is_true_iff", "Pep508.C03.is_false_iff",
             "Pep508.C03.and_comm_of_wf", "Pep508.partition_unique", "Pep508.Tree.eval_agree",
         ],
@@ -91,9 +95,9 @@ PROPS = {
         "trusted": [], "assumptions": [],
     },
     "C11": {
-        "lean_targets": ["Pep508.Theorems.C11", "Pep508.Theorems.C05"],
+        "lean_targets": ["Pep508.Theorems.C11", "Pep508.Theorems.C05", "Pep508.Theorems.C05b"],
         "theorems": ["Pep508.C11.restrict_eval", "Pep508.C11.restrict_independent", "Pep508.C11.not_mentioned_irrelevant",
-                     "Pep508.C11.with_extra_marker_eval", "Pep508.C11.extra_expr_eval", "Pep508.OK_restrict", "Pep508.C05.common_term_holds"],
+                     "Pep508.C11.with_extra_marker_eval", "Pep508.C11.extra_expr_eval", "Pep508.OK_restrict", "Pep508.C05.common_term_holds_norm"],
         "suites": [{"name": "algebra", "args": ["C11"]}, {"name": "algebra", "args": ["C05"]}],
         "rule": "a pool of markers is built through the real API along random construction paths (typed expressions, and/or/negate, simplify_extras, "
                 "simplify/complexify_python_versions, plus shapes generated on purpose); simplify_extras(E) with 1-2 extras (spellings of one normal form included) is applied one step from literal operands and compared with the model; "
@@ -203,10 +207,16 @@ PROPS = {
         "trusted": ["PEP 440 specifier and URL grammars are external (pep440_rs, url)"], "assumptions": [],
     },
     "C05": {
-        "lean_targets": ["Pep508.Theorems.C05"],
-        "theorems": ["Pep508.C05.to_dnf_sound", "Pep508.C05.simplify_sound", "Pep508.C05.collect_exact", "Pep508.C05.is_negation_sound",
-                     "Pep508.C05.common_term_holds", "Pep508.C05.false_literal", "Pep508.C05.quote_choice",
-                     "Pep508.rangeTerms_sem", "Pep508.collectEdges_spec", "Pep508.redundantTerms_inv"],
+        "lean_targets": ["Pep508.Theorems.C05", "Pep508.Theorems.C05b", "Pep508.Theorems.NonVacuityB"],
+        "theorems": ["Pep508.C05.to_dnf_sound_norm", "Pep508.C05.collect_exact_norm", "Pep508.C05.common_term_holds_norm", "Pep508.C05.to_dnf_sound_built",
+                     "Pep508.C05.built_invariants", "Pep508.C05.spelling_hypothesis_satisfiable", "Pep508.C05.old_spelling_hypothesis_unsatisfiable",
+                     "Pep508.C05.display_parse_roundtrip_sep", "Pep508.C05.display_parse_roundtrip", "Pep508.C05.display_parse_roundtrip_iff",
+                     "Pep508.C05.display_parse_equiv", "Pep508.C05.display_parses", "Pep508.C05.show_is_layout", "Pep508.C05.layout_wf",
+                     "Pep508.C05.atom_reparses", "Pep508.C05.expression_text_parses", "Pep508.C05.dnf_forms", "Pep508.C05.rebuild_identity",
+                     "Pep508.C05.rebuild_sound", "Pep508.C05.false_text_reparses", "Pep508.C05.false_not_canonical",
+                     "Pep508.C05.deprecated_key_not_identical", "Pep508.C05.both_quotes_rejected", "Pep508.C05.xRead_readsPrinted",
+                     "Pep508.C05.simplify_sound", "Pep508.C05.is_negation_sound", "Pep508.C05.false_literal", "Pep508.C05.quote_choice",
+                     "Pep508.collectEdges_spec", "Pep508.redundantTerms_inv"],
         "suites": [{"name": "algebra", "args": ["C05"]}],
         "rule": "a pool of markers is built through the real API along random construction paths (typed expressions, and/or/negate, simplify_extras, "
                 "simplify/complexify_python_versions, plus shapes generated on purpose); for every pool marker: to_dnf() and the Display text are compared with the Lean DNF model (path collection with collect_edges, inequality and star-range "
@@ -296,12 +306,11 @@ _NOTE = ("Trusted: Lean 4.33 kernel (+ propext, Classical.choice, Quot.sound, au
          "differential correspondence on generated cases (sampled, not proved); ")
 MANIFEST_TEXT = {
     "C05": {
-        "technique": "Lean 4 theorems: to_dnf is sound (path collection with collect_edges exact; inequality / star recognition; the batched quadratic simplifier preserves meaning) "
+        "technique": "Lean 4 theorems: the model marker parser applied to the model Display of a diagram returns that diagram (display_parse_roundtrip_sep: well-formed, typed, printable, bounds separated; display_parse_equiv: an equivalent diagram without the separation condition); to_dnf is sound (to_dnf_sound_norm / _built); the quadratic simplifier preserves meaning "
                      "+ exact differential model of to_dnf and Display + round-trip oracle",
-        "text": "toDnf_sound: for every well-formed typed diagram, every environment and every version spelling, the DNF denotes the marker; simplifyDnf_sound for arbitrary DNFs; "
-                "is_negation sound. The Lean DNF/rendering model equals the implementation clause for clause and character for character; Display -> parse -> == (equivalence in the "
-                "carve-out) and serde agreement are decided on the implementation for every pool marker.",
-        "note": _NOTE + "partial at the text level: parse(render(m)) = m is oracle + parser correspondence, not a Lean theorem; spelling is a parameter (K1).",
+        "text": "display_parse_roundtrip_sep / display_parse_roundtrip_iff: parseMarkers (showMarker t) = t, via show_is_layout (the rendered text is a well-formed layout), atom_reparses (every DNF term's text parses back to the term, given an external version parser that reads what the printer prints: ExtReadsPrinted, witnessed by xRead), the parser compositionality theorem of C01b, rebuild_sound and relative canonicity (C03b). Carve-outs proved as theorems: false_text_reparses / false_not_canonical (FALSE), deprecated_key_not_identical, both_quotes_rejected. "
+                "to_dnf_sound_norm: for every well-formed typed diagram with normalised bounds (closed under the API: built_invariants), every environment and every admissible spelling the DNF denotes the marker. The Lean DNF/rendering model equals the implementation clause for clause and character for character; Display -> parse -> == and serde agreement are decided on the implementation for every pool marker.",
+        "note": _NOTE + "an audit found the spelling hypothesis of the first version of the DNF soundness theorems unsatisfiable (old_spelling_hypothesis_unsatisfiable): they were vacuous and are no longer registered; the repaired hypothesis is proved satisfiable (spelling_hypothesis_satisfiable) and every registered theorem now has a machine-checked non-vacuity witness (Theorems/NonVacuity*.lean). Spelling is a parameter (K1); pep440 parsing / printing is external (ExtReadsPrinted).",
     },
     "C08": {
         "technique": "Lean 4 theorem: the model requirement parser applied to the model Display of every well-formed requirement value returns that value (name, extras, the exact texts handed to the external specifier / URL parsers with their spans, marker as the marker parser reads it) and never rejects it; Display model compared with to_string() on every accepted requirement; round-trip oracle (Display, re-render, serde_json both ways)",
@@ -384,10 +393,9 @@ MANIFEST_TEXT = {
     "C12": {
         "technique": "Lean 4 theorems: complexify = AND with the range marker (meaning for all bounds; identity of diagrams via the canonicity theorem), simplify agrees inside R, "
                      "both preserve well-formedness and cannot hit their unwrap/assert sites + one-step correspondence and identity oracles",
-        "text": "complexify_eval / simplify_eval_inside for every well-formed marker and every pair of bounds; complexify_eq_and, complexify_simplify, complexify_congr as "
-                "identities of diagrams (canonicity, dense orders); wf preservation and non-emptiness of the kept edge run. simplify(complexify(m,R),R) == simplify(m,R) and "
-                "'agree on R => equal simplifications' are decided by the oracle on the implementation (not yet theorems: they need the behaviour of simplify outside R).",
-        "note": _NOTE + "the two remaining equalities are partial (oracle only); empty R is read as in DESIGN §7 C12.",
+        "text": "complexify_eval / simplify_eval_inside for every well-formed marker and every pair of bounds; complexify_eq_and, complexify_simplify, complexify_congr, simplify_congr (agree on R => equal simplifications), simplify_complexify, simplify_idem as "
+                "identities of diagrams (canonicity, dense orders); simplify_eval_below / above (what simplify does outside R); wf preservation and non-emptiness of the kept edge run; for empty / inverted R the identities are proved false and the exact behaviour stated.",
+        "note": _NOTE + "the identities that go through canonicity (complexify_eq_and, complexify_simplify, complexify_congr, simplify_congr, simplify_complexify, simplify_idem) are proved for dense orders without end points (witnessed at Rat); at the model's own value type Val that class does not hold (C03b) and simplify_congr fails at the version-0 / adjacent-string shapes (NonVacuityA: simplify_congr_fails_at_Val); the meaning theorems (complexify_eval, simplify_eval_inside, wf preservation, panic freedom) need no such assumption. Empty R: proved negations.",
     },
     "C04": {
         "technique": "Lean 4 theorems: is_disjoint is sound for every environment, symmetric, and equals (and == FALSE) (fuel induction mirroring the recursion) + verdict correspondence",
@@ -403,9 +411,9 @@ MANIFEST_TEXT = {
     },
     "C13": {
         "technique": "Lean 4 theorem: evalExtras is an over-approximation of evaluation for every diagram (no well-formedness needed) + bit correspondence + existential oracle",
-        "text": "evalExtras_sound: if any environment consistent with the extras satisfies the diagram then evaluate_extras answers true; contrapositive for false. "
+        "text": "evalExtras_sound: if any environment consistent with the extras satisfies the diagram then evaluate_extras answers true; contrapositive for false; evaluate_extras_iff_partial / evaluate_extras_exact: exact when every edge interval is inhabited. "
                 "evaluate_extras_and_python_version is the same function on reachable diagrams (python_version nodes never exist).",
-        "note": _NOTE + "exactness for independent variables: oracle only.",
+        "note": _NOTE + "soundness holds for every diagram and value type; exactness is proved under 'every edge interval of the diagram is inhabited' (evaluate_extras_iff_partial, usable at Val) or for dense orders; it fails for a diagram with the valid-but-empty edge (-inf, version 0) (NonVacuityA: evaluate_extras_exact_fails_at_Val), which is outside 'variables independent'.",
     },
     "C20": {
         "technique": "Lean 4 theorems: the executable C20 predicate Tree.wf is preserved by and/or/not (product of partitions is a partition, coalescing restores "
@@ -437,6 +445,6 @@ MANIFEST_TEXT = {
         "text": "`canonical` (and is_true/is_false iff constant) proved by induction on size with partition-uniqueness and variable-independence lemmas; tied to the "
                 "code through the C20 predicate evaluated on implementation dumps, one-step operation correspondence, ten algebraic laws and exhaustive truth tables "
                 "over abstract valuations (the property's stated granularity).",
-        "note": _NOTE + "density / no end points of the value order is a hypothesis of the theorem (what falls outside is named in DESIGN §7 C03); id = structure is C14.",
+        "note": _NOTE + "the generic theorem assumes a dense order without end points (instance: Rat). The model's own value type Val is NOT such an order (version 0 is least; s and s+NUL are adjacent strings: val_not_dense_unbounded) and the statement really fails there at exactly those shapes (lt_zero_constantly_false: `python_full_version < '0'` is well-formed, constantly false, not FALSE; str_gap_constantly_false). C03b states canonicity at Val for diagrams whose bounds are separated from those points (canonical_relative, equal_iff_same_function_val, is_true/is_false_iff_val; separation is preserved by and/or/not). id = structure is C14.",
     },
 }
